@@ -29,8 +29,19 @@ def _I():
 # argument binding
 
 
+_sig_cache = {}
+_gen_cache = {}
+
+
+def signature(fn):
+    r = _sig_cache.get(fn)
+    if r is None:
+        r = _sig_cache[fn] = inspect.signature(fn)
+    return r
+
+
 def bind_args(fn, args, kwargs):
-    sig = inspect.signature(fn)
+    sig = signature(fn)
     try:
         ba = sig.bind(*args, **kwargs)
     except TypeError as e:
@@ -78,7 +89,11 @@ def run_body(it, fn, bound, cls=None):
         raise EngineError('call depth')
     it.current_fn.append(fn)
     try:
-        if any(isinstance(x, (ast.Yield, ast.YieldFrom)) for x in ast.walk(node)):
+        isgen = _gen_cache.get(id(node))
+        if isgen is None:
+            isgen = _gen_cache[id(node)] = any(isinstance(x, (ast.Yield, ast.YieldFrom))
+                                               for x in ast.walk(node))
+        if isgen:
             fr.locals['__yielded__'] = SList()
             try:
                 it.ex_block(node.body, fr)
@@ -93,6 +108,11 @@ def run_body(it, fn, bound, cls=None):
     finally:
         it.call_depth -= 1
         it.current_fn.pop()
+
+
+def run_inv(it, cc, obj):
+    pname = next(iter(signature(cc.inv).parameters))
+    return run_body(it, cc.inv, {pname: obj})
 
 
 def call_closure(it, clo, args, kwargs):
@@ -155,7 +175,7 @@ def call_function(it, fn, args, kwargs):
 
 def clause_args(it, cfn, ns):
     """Pick the arguments of a contract clause function by parameter name."""
-    sig = inspect.signature(cfn)
+    sig = signature(cfn)
     names = list(sig.parameters)
     if all(p in ns for p in names):
         return [ns[p] for p in names]
@@ -169,7 +189,7 @@ def clause_args(it, cfn, ns):
 
 
 def eval_clause(it, cfn, ns):
-    bound = dict(zip(inspect.signature(cfn).parameters, clause_args(it, cfn, ns)))
+    bound = dict(zip(signature(cfn).parameters, clause_args(it, cfn, ns)))
     return run_body(it, cfn, bound)
 
 
@@ -196,7 +216,7 @@ def call_by_contract(it, c, fn, bound):
         ctx.assume(t)
     if cc is not None and cc.inv is not None and not c.is_init and 'self' in ns and \
             not c.skip_inv_at_call:
-        t = it.truth(run_body(it, cc.inv, {'self': ns['self']}))
+        t = it.truth(run_inv(it, cc, ns['self']))
         ctx.oblige(f'{tag}.pre/inv', t, where=where)
         ctx.assume(t)
     need_old = bool(c.ensures) or any(True for _ in c.raises)
@@ -226,7 +246,7 @@ def call_by_contract(it, c, fn, bound):
     for name, efn in c.ensures:
         ctx.assume(it.truth(eval_clause(it, efn, ns)))
     if cc is not None and cc.inv is not None and 'self' in ns:
-        ctx.assume(it.truth(run_body(it, cc.inv, {'self': ns['self']})))
+        ctx.assume(it.truth(run_inv(it, cc, ns['self'])))
     return result
 
 
@@ -387,7 +407,42 @@ def intrinsic(it, name, args, kwargs):
         return it.identical(args[0], None)
     if name == 'opt_eq':
         return it.eq(args[0], args[1])
+    if name == 'opt_or':
+        x, d = args
+        if x is None:
+            return d
+        if isinstance(x, SOpt):
+            return V.merge(BT(x.isnone), d, x.inner)
+        return x
+    if name == 'seq_appended':
+        new, old, x = args
+        return seq_appended(it, new, old, x)
+    if name == 'seq_last_is':
+        xs, k, v = args
+        n = it.models_mod.py_len(it, xs)
+        ok = it.compare(ast.GtE(), n, k)
+        if ok is False:
+            return False
+        e = spec_get(it, xs, it.binop(ast.Sub(), n, k))
+        return b_and(ok, it.identical(e, v))
     raise EngineError(f'intrinsic {name}')
+
+
+def seq_appended(it, new, old, x):
+    if isinstance(old, SList) and isinstance(new, SList):
+        return it.eq(new, SList(old.items + [x]))
+    if isinstance(old, SList):
+        old_n, get_old = len(old.items), None
+    if isinstance(new, SSeq) and isinstance(old, SSeq):
+        want = z3.Store(old.arr, T(old.n), new.elem.unwrap(x))
+        same_arr = True if z3.simplify(new.arr).eq(z3.simplify(want)) else mk_bool(new.arr == want)
+        return b_and(mk_bool(T(new.n) == T(old.n) + 1), same_arr)
+    if isinstance(new, SSeq) and isinstance(old, SList):
+        conj = [mk_bool(T(new.n) == len(old.items) + 1)]
+        for i, y in enumerate(old.items + [x]):
+            conj.append(mk_bool(z3.Select(new.arr, i) == new.elem.unwrap(y)))
+        return b_and(*conj)
+    raise EngineError('seq_appended')
 
 
 def spec_get(it, xs, i):
@@ -405,7 +460,9 @@ def spec_get(it, xs, i):
     if isinstance(xs, (SList, tuple)):
         items = xs.items if isinstance(xs, SList) else list(xs)
         if isinstance(i, int):
-            return items[i]
+            return items[i] if 0 <= i < len(items) else None
+        if not items:
+            return None
         acc = items[-1]
         for k in range(len(items) - 2, -1, -1):
             acc = V.merge(z3.simplify(T(i) == k), items[k], acc)
